@@ -126,12 +126,26 @@ func (w *World) collections() []CollectionRow {
 		exported = collCalls(expG.decl.Body, k, "Walk", "Get", "Peek", "Iterate", "IterateRaw")
 	}
 	imported := map[string]bool{}
-	if k := keeperParam(initG.decl); k != "" {
-		imported = collCalls(initG.decl.Body, k, "Set", "Next")
-		// one level: Keeper methods called from InitGenesis that write a collection
-		ast.Inspect(initG.decl.Body, func(n ast.Node) bool {
+	// InitGenesis itself, the Keeper methods it calls, and (a long function split into helpers)
+	// the functions of its own package it hands the keeper to — two levels deep
+	var scan func(fd *ast.FuncDecl, depth int)
+	scan = func(fd *ast.FuncDecl, depth int) {
+		k := keeperParam(fd)
+		if k == "" || fd.Body == nil || depth > 2 {
+			return
+		}
+		for c := range collCalls(fd.Body, k, "Set", "Next") {
+			imported[c] = true
+		}
+		ast.Inspect(fd.Body, func(n ast.Node) bool {
 			c, ok := n.(*ast.CallExpr)
 			if !ok {
+				return true
+			}
+			if id, ok := unparen(c.Fun).(*ast.Ident); ok {
+				if h, ok := mp.funcs[id.Name]; ok && h.decl != fd {
+					scan(h.decl, depth+1)
+				}
 				return true
 			}
 			s, ok := unparen(c.Fun).(*ast.SelectorExpr)
@@ -152,6 +166,7 @@ func (w *World) collections() []CollectionRow {
 			return true
 		})
 	}
+	scan(initG.decl, 0)
 
 	dups := w.dupKeyFields(tp)
 
